@@ -126,7 +126,7 @@ def _case_from_struct(v):
 
 def _strategy(tier):
     big = tier == "thorough"
-    return st.tuples(G.url_structs(max_segments=6 if big else 4, max_items=6 if big else 4, host_kw={"ip": True, "rootdot": True}),
+    return st.tuples(G.url_structs(max_segments=6 if big else 4, max_items=6 if big else 4, host_kw={"ip": True, "rootdot": True, "emptyhost": True}),
                      st.booleans(), st.booleans(), st.sampled_from(["https", "http", "https", "ftp"]))
 
 
